@@ -313,6 +313,37 @@ pub fn make_case(prop: &str, seed: u64) -> Case {
                 case.setup.push(Op::Login { c, name, password });
             }
         }
+        "C04" => {
+            case.gen.topics = 1 + rng.below(2) as u32;
+            case.gen.partitions = 1 + rng.below(2) as u32;
+            case.gen.ops = 6 + rng.below(25) as u32;
+            case.knobs.segment_size = *rng.pick(&[400, 1024, 4096, 65536]);
+            case.knobs.messages_required_to_save = *rng.pick(&[1, 2, 3, 5, 10, 1000]);
+            case.knobs.cache_enabled = rng.chance(0.2);
+            case.gen.batch_sizes = vec![1, 2, 3, 5, 8];
+            case.gen.payload_lens = vec![5, 20, 60, 150];
+            let expiring = rng.chance(0.3);
+            if expiring {
+                case.gen.topic_expiry = vec![Expiry::Micros(2_000_000), Expiry::Never];
+                case.gen.jump_micros = vec![3_000_000];
+            }
+            let mut mix = Mix { send: 50, flush: 8, job_save: 8, store_offset: 10, delete_offset: 2, purge: 2, tick: 3, job_maintain: if expiring { 8 } else { 0 }, jump: if expiring { 6 } else { 0 }, catalogue: 3, partitions: 2, poll: 3, ..Default::default() };
+            perturb(&mut rng, &mut mix);
+            mix.send = mix.send.max(25);
+            case.gen.mix = mix;
+            case.settle_each = true;
+            log_setup(&mut case, &mut rng);
+        }
+        "C12" => {
+            case.knobs.segment_size = *rng.pick(&[400, 1024, 4096, 65536, 8 * 1024 * 1024]);
+            case.knobs.messages_required_to_save = *rng.pick(&[1, 2, 3, 5, 10, 50, 1000]);
+            case.knobs.cache_enabled = rng.chance(0.5);
+            case.knobs.cache_size = *rng.pick(&[512, 2048, 16 * 1024]);
+            case.knobs.no_wait = rng.chance(0.4);
+            case.settle_each = false;
+            case.yield_prob = *rng.pick(&[0.2, 0.5, 0.8, 1.0]);
+            case.policy = rng.pick(&["random", "random", "pct", "starve_bg", "eager_bg"]).to_string();
+        }
         "C07" => {
             case.gen.topics = 1 + rng.below(2) as u32;
             case.gen.partitions = 1 + rng.below(3) as u32;
